@@ -30,8 +30,20 @@ def queue_call(call: ast.Call) -> Optional[Tuple[str, str]]:
     timeout = kwarg(call, "timeout", pos + 1)
     if block is not None and const_value(block, None) is False:
         return m, "nonblocking"
-    if timeout is not None and const_value(timeout, 1) is not None:
-        return m, "bounded"
+    if timeout is not None:
+        def may_be_none(e) -> bool:
+            if isinstance(e, ast.Constant):
+                return e.value is None
+            if isinstance(e, ast.IfExp):
+                return may_be_none(e.body) or may_be_none(e.orelse)
+            if isinstance(e, ast.BoolOp):
+                return any(may_be_none(v) for v in e.values)
+            return False
+        if may_be_none(timeout):
+            return m, "blocking"  # a timeout that can evaluate to None waits without bound
+        if isinstance(timeout, ast.Constant) or isinstance(timeout, (ast.BinOp, ast.UnaryOp)):
+            return m, "bounded"
+        return m, "bounded?"  # a name/attribute: bounded unless it holds None
     return m, "blocking"
 
 
